@@ -13,6 +13,7 @@ import (
 	"fmt"
 	"os"
 	"path/filepath"
+	"strconv"
 	"testing"
 	"time"
 
@@ -62,8 +63,20 @@ func FuzzProp(f *testing.F) {
 		f.Skip("property not served by the coverage-guided engine: " + id)
 	}
 	// seeds: the distilled corpus of earlier campaigns, then the repository's own examples
-	for i, e := range wl.CovCorpus() {
-		f.Add(e, uint16(i*7))
+	// (the whole corpus is replayed through the oracle by the check itself; as seeds of the engine a sample is enough in
+	// the quick tier, because gathering baseline coverage costs about 3 ms per seed)
+	cov := wl.CovCorpus()
+	step, off := 1, 0
+	if n, err := strconv.Atoi(os.Getenv("VERIF_FUZZ_SEEDS")); err == nil && n > 0 && len(cov) > n {
+		step = len(cov) / n
+		off, _ = strconv.Atoi(os.Getenv("VERIF_SEED"))
+		if off < 0 {
+			off = -off
+		}
+		off %= step
+	}
+	for i := off; i < len(cov); i += step {
+		f.Add(cov[i], uint16(i*7))
 	}
 	for i, e := range wl.Corpus(repo()) {
 		if len(e.Markdown) <= 600 && i%3 == 0 {
